@@ -26,9 +26,17 @@ FixEtc(fmt, b) ==
 Tex(name, w, h, fmt, seed) ==
   [name |-> name, w |-> w, h |-> h, fmt |-> fmt, pal |-> <<>>,
    payload |-> Tup(FixEtc(fmt, Tup([k \in 1..PayloadSize(fmt, w, h) |-> PatByte(seed, k)])))]
+\* The texels outside the crop are "don't care": they are filled adversarially, per texture one of
+\* 0xFF / the first value that is no palette index / any byte / a valid index
+PadByte(seed, k, n) ==
+  CASE seed % 4 = 0 -> 255
+    [] seed % 4 = 1 -> IF n < 256 THEN n ELSE 255
+    [] seed % 4 = 2 -> PatByte(seed + 5, k)
+    [] seed % 4 = 3 -> PatByte(seed + 5, k) % n
 PalTex(w, h, n, seed) ==
   [name |-> <<>>, w |-> w, h |-> h, fmt |-> CI8,
-   payload |-> Tup([k \in 1..CI8PayloadSize(w, h) |-> PatByte(seed, k) % n]),
+   payload |-> Tup([k \in 1..CI8PayloadSize(w, h) |->
+                      IF CI8InCrop(w, h, k - 1) THEN PatByte(seed, k) % n ELSE PadByte(seed, k, n)]),
    pal |-> Tup([k \in 1..(2 * n) |-> PatByte(seed + 1, k + 300)])]
 
 \* names: ASCII, and with the hand-checked non-ASCII characters (incl. trail byte 0x5C)
@@ -135,7 +143,8 @@ P6 == PalTex(16, 8, 40, 16)
 \* palette image with separately seeded indices and palette
 PalTex2(w, h, n, si, sp) ==
   [name |-> <<>>, w |-> w, h |-> h, fmt |-> CI8,
-   payload |-> Tup([k \in 1..CI8PayloadSize(w, h) |-> PatByte(si, k) % n]),
+   payload |-> Tup([k \in 1..CI8PayloadSize(w, h) |->
+                      IF CI8InCrop(w, h, k - 1) THEN PatByte(si, k) % n ELSE PadByte(si + sp, k, n)]),
    pal |-> Tup([k \in 1..(2 * n) |-> PatByte(sp, k + 300)])]
 \* palette image whose indices deliberately include both ends of the index range
 \* (0, 1, n-2, n-1) in the first rows of the first block, i.e. inside every crop of >= 6 texels
@@ -144,7 +153,8 @@ PalEdge(w, h, n, seed) ==
   [name |-> <<>>, w |-> w, h |-> h, fmt |-> CI8,
    payload |-> Tup([k \in 1..CI8PayloadSize(w, h) |->
                       \* the four left-most texels of every block row carry the range ends, rotated per row
-                      IF (k - 1) % 8 < 4 THEN EdgeIdx(n, (((k - 1) % 8) + ((k - 1) \div 8)) % 4)
+                      IF ~CI8InCrop(w, h, k - 1) THEN PadByte(seed, k, n)
+                      ELSE IF (k - 1) % 8 < 4 THEN EdgeIdx(n, (((k - 1) % 8) + ((k - 1) \div 8)) % 4)
                       ELSE PatByte(seed, k) % n]),
    pal |-> Tup([k \in 1..(2 * n) |-> PatByte(seed + 1, k + 300)])]
 CropIndices(t) == { t.payload[CI8Index(t.w, x, y) + 1] : x \in 0..(t.w - 1), y \in 0..(t.h - 1) }
@@ -182,35 +192,39 @@ ListTpl(vi) ==
 BigTpl == {10}
 
 \* ------------------------------------------------------------------ placements
-CtpkP(nf, rev, gap, lead, fill) == [namesFirst |-> nf, rev |-> rev, gap |-> gap, lead |-> lead, fill |-> fill]
-BchP(compat, secs, rev, tf, gap, slead, fill) ==
-  [compat |-> compat, secs |-> secs, rev |-> rev, tableFirst |-> tf, gap |-> gap, slead |-> slead, fill |-> fill]
-CgfxP(ord, decoy, rev, gap, fill) == [ord |-> ord, decoy |-> decoy, rev |-> rev, gap |-> gap, fill |-> fill]
-TplP(ord, rev, gap, fill) == [ord |-> ord, rev |-> rev, gap |-> gap, fill |-> fill]
+\* (junk = the filler byte: reserved fields carry it too; tail = filler bytes after the last item)
+CtpkP(nf, rev, gap, lead, fill, tail) ==
+  [namesFirst |-> nf, rev |-> rev, gap |-> gap, lead |-> lead, fill |-> fill, tail |-> tail, junk |-> fill]
+BchP(compat, secs, rev, tf, gap, slead, fill, tail) ==
+  [compat |-> compat, secs |-> secs, rev |-> rev, tableFirst |-> tf, gap |-> gap, slead |-> slead, fill |-> fill,
+   tail |-> tail, junk |-> fill]
+CgfxP(ord, decoy, rev, gap, fill, tail) ==
+  [ord |-> ord, decoy |-> decoy, rev |-> rev, gap |-> gap, fill |-> fill, tail |-> tail, junk |-> fill]
+TplP(ord, rev, gap, fill, tail) == [ord |-> ord, rev |-> rev, gap |-> gap, fill |-> fill, tail |-> tail, junk |-> fill]
 
 \* quick: three hand-picked placements per container; thorough: products of the parameters
 SecOrders == { <<"C", "S", "M", "R">>, <<"R", "M", "S", "C">>, <<"S", "C", "R", "M">>,
                <<"M", "R", "C", "S">>, <<"R", "C", "S", "M">>, <<"C", "R", "M", "S">> }
 Placements(c) ==
   CASE c = "ctpk" ->
-         IF Quick THEN << CtpkCanonP, CtpkP(FALSE, TRUE, 5, 3, 204), CtpkP(TRUE, TRUE, 4, 4, 255) >>
-         ELSE SetToSeq({ CtpkP(nf, rev, g[1], g[2], g[3]) : nf \in BOOLEAN, rev \in BOOLEAN,
-                         g \in { <<0, 0, 0>>, <<5, 3, 204>>, <<4, 4, 255>>, <<16, 0, 170>>, <<16, 16, 1>> } })
+         IF Quick THEN << CtpkCanonP, CtpkP(FALSE, TRUE, 5, 3, 204, 6), CtpkP(TRUE, TRUE, 4, 4, 255, 0) >>
+         ELSE SetToSeq({ CtpkP(nf, rev, g[1], g[2], g[3], g[4]) : nf \in BOOLEAN, rev \in BOOLEAN,
+                         g \in { <<0, 0, 0, 0>>, <<5, 3, 204, 7>>, <<4, 4, 255, 0>>, <<16, 0, 170, 1>>, <<16, 16, 1, 0>> } })
     [] c = "bch" ->
-         IF Quick THEN << BchP(7, <<"C", "S", "M", "R">>, FALSE, TRUE, 0, 0, 0),
-                          BchP(34, <<"R", "M", "S", "C">>, TRUE, FALSE, 4, 3, 204),
-                          BchP(7, <<"S", "C", "R", "M">>, TRUE, TRUE, 8, 1, 255) >>
-         ELSE SetToSeq({ BchP(compat, secs, g[1], g[2], g[3], g[4], g[5]) : compat \in {7, 34}, secs \in SecOrders,
-                         g \in { <<FALSE, TRUE, 0, 0, 0>>, <<TRUE, FALSE, 4, 3, 204>>,
-                                  <<TRUE, TRUE, 8, 1, 255>>, <<FALSE, FALSE, 3, 5, 170>> } })
+         IF Quick THEN << BchP(7, <<"C", "S", "M", "R">>, FALSE, TRUE, 0, 0, 0, 0),
+                          BchP(34, <<"R", "M", "S", "C">>, TRUE, FALSE, 4, 3, 204, 5),
+                          BchP(7, <<"S", "C", "R", "M">>, TRUE, TRUE, 8, 1, 255, 0) >>
+         ELSE SetToSeq({ BchP(compat, secs, g[1], g[2], g[3], g[4], g[5], g[6]) : compat \in {7, 34}, secs \in SecOrders,
+                         g \in { <<FALSE, TRUE, 0, 0, 0, 0>>, <<TRUE, FALSE, 4, 3, 204, 9>>,
+                                  <<TRUE, TRUE, 8, 1, 255, 0>>, <<FALSE, FALSE, 3, 5, 170, 2>> } })
     [] c = "cgfx" ->
-         IF Quick THEN << CgfxP(1, FALSE, FALSE, 0, 0), CgfxP(2, TRUE, TRUE, 4, 204), CgfxP(3, TRUE, FALSE, 3, 255) >>
-         ELSE SetToSeq({ CgfxP(ord, decoy, rev, g[1], g[2]) : ord \in 1..3, decoy \in BOOLEAN, rev \in BOOLEAN,
-                         g \in { <<0, 0>>, <<4, 204>>, <<3, 255>> } })
+         IF Quick THEN << CgfxP(1, FALSE, FALSE, 0, 0, 0), CgfxP(2, TRUE, TRUE, 4, 204, 4), CgfxP(3, TRUE, FALSE, 3, 255, 0) >>
+         ELSE SetToSeq({ CgfxP(ord, decoy, rev, g[1], g[2], g[3]) : ord \in 1..3, decoy \in BOOLEAN, rev \in BOOLEAN,
+                         g \in { <<0, 0, 0>>, <<4, 204, 6>>, <<3, 255, 0>> } })
     [] c = "tpl" ->
-         IF Quick THEN << TplCanonP, TplP(2, TRUE, 5, 204), TplP(3, FALSE, 3, 255) >>
-         ELSE SetToSeq({ TplP(ord, rev, g[1], g[2]) : ord \in 1..3, rev \in BOOLEAN,
-                         g \in { <<0, 0>>, <<5, 204>>, <<32, 170>> } })
+         IF Quick THEN << TplCanonP, TplP(2, TRUE, 5, 204, 3), TplP(3, FALSE, 3, 255, 0) >>
+         ELSE SetToSeq({ TplP(ord, rev, g[1], g[2], g[3]) : ord \in 1..3, rev \in BOOLEAN,
+                         g \in { <<0, 0, 0>>, <<5, 204, 8>>, <<32, 170, 0>> } })
 NLists(c) == IF c = "tpl" THEN NTpl ELSE N3DS
 ListAt(c, vi) == IF c = "tpl" THEN ListTpl(vi) ELSE List3DS(c, vi)
 IsBig(c, vi) == vi \in (IF c = "tpl" THEN BigTpl ELSE Big3DS)
@@ -254,6 +268,12 @@ Law(c, v, p) ==
      /\ c = "tpl" => LET pe == TplPalExtents(v, p) IN
                      /\ \A i \in 1..Len(v) : Slice(f, pe[i][1], Len(v[i].pal)) = v[i].pal
                      /\ Disjoint(ext \o pe)
+     \* the expected image of a palette texture does not depend on its padding texels
+     /\ c = "tpl" => \A i \in 1..Len(v) :
+                       (v[i].w % 8 # 0 \/ v[i].h % 4 # 0) =>
+                         CI8Srcs(v[i].w, v[i].h, v[i].payload, v[i].pal)
+                           = CI8Srcs(v[i].w, v[i].h, [q \in 1..Len(v[i].payload) |->
+                                        IF CI8InCrop(v[i].w, v[i].h, q - 1) THEN v[i].payload[q] ELSE 0], v[i].pal)
      /\ MinOk(ext) <= Len(f)
      \* the reference reader rejects every prefix that cuts a payload ...
      /\ \A n \in PrefixSample(ext) : ~WellFormedN(c, f, n)
@@ -279,5 +299,10 @@ Emit ==
                              \* smaller payload than its predecessor ends the file; most texels of a texture
                              shrink_eof |-> \E i \in 2..Len(v) : Len(v[i].payload) < Len(v[i - 1].payload) /\ ext[i][2] = Len(f),
                              max_texels |-> IF Len(v) = 0 THEN 0 ELSE MaxOf({ v[i].w * v[i].h : i \in 1..Len(v) }),
+                             \* padding texels of palette images that are no valid palette index
+                             pad_bad |-> IF c # "tpl" THEN 0
+                                         ELSE SumTo([i \in 1..Len(v) |->
+                                                Cardinality({ q \in 1..Len(v[i].payload) :
+                                                  ~CI8InCrop(v[i].w, v[i].h, q - 1) /\ 2 * v[i].payload[q] + 2 > Len(v[i].pal) })], Len(v)),
                              reject_by |-> SetToSeq({ r \in Containers \ {c} : ChecksMagic(r) /\ ~MagicOK(r, f) })]))
 =============================================================================
